@@ -57,6 +57,22 @@ Proof.
   destruct (draw (N.to_nat size) t) as [k t']. reflexivity.
 Qed.
 
+(* the other bodies of the key macros, translated: `randomized` is `default` (one draw of $size bytes and nothing
+   else); ReconnectData::randomize_data overwrites the whole key with one draw of exactly its length and touches
+   nothing else; from_le_bytes / as_le_bytes store and hand out the array unchanged *)
+Lemma key_macro_randomized_translated : forall size t,
+  tr_key_macro_randomized size t = Some (draw (N.to_nat size) t).
+Proof.
+  intros size t. unfold tr_key_macro_randomized. rewrite key_macro_default_translated.
+  destruct (draw (N.to_nat size) t) as [k t']. reflexivity.
+Qed.
+Lemma reconnect_randomize_data_translated : forall key t,
+  tr_reconnect_randomize_data key t = Some (draw (length key) t).
+Proof. intros key t. unfold tr_reconnect_randomize_data. destruct (draw (length key) t) as [k t']. reflexivity. Qed.
+Lemma key_macro_identities : forall key,
+  tr_key_macro_from_le_bytes key = Some key /\ tr_key_macro_as_le_bytes key = Some key.
+Proof. intros key. split; reflexivity. Qed.
+
 Lemma key_new_instances :
   inst_key_new_Salt = salt_length /\ inst_key_new_PrivateKey = private_key_length /\
   inst_key_new_ReconnectData = reconnect_challenge_data_length /\
